@@ -270,7 +270,7 @@ theorem mu_decreases (s s' : SSys) (l : SLabel) (hl : l.sched = true) (h : snext
     · simp at h
     · split at h
       · rename_i t r hpc hs
-        simp at h; subst h
+        simp at h; obtain ⟨_, h⟩ := h; subst h
         have : 1 ≤ tokW t := by cases t <;> simp [tokW]
         simp only [mu, muR, hs, seqsW]
         omega
